@@ -790,14 +790,12 @@ pub fn mode_iters(a: &Args) -> i32 {
     0
 }
 
-pub fn replay(rp: &serde_json::Value, _a: &Args, sink: &mut Sink) -> i32 {
+pub fn replay(rp: &serde_json::Value, _a: &Args, sink: &mut Sink, journal: &mut Journal) -> i32 {
     let mut cn = Counters::default();
-    if let Some(case) = rp.get("case").filter(|c| c.get("script").is_some()) {
+    let case = rp.get("case").filter(|c| c.get("script").is_some()).or_else(|| rp.get("case").and_then(|c| c.get("case")));
+    if let Some(case) = case {
         let c: Case = serde_json::from_value(case.clone()).expect("case");
-        let vs = crate::dispatch!(c.kind, "fixed", exec_case, &c, &mut cn);
-        emit(sink, &c, vs);
-    } else if let Some(case) = rp.get("case").and_then(|c| c.get("case")) {
-        let c: Case = serde_json::from_value(case.clone()).expect("case");
+        journal.line(&format!("CASE {}", serde_json::json!({"mode":"iters","what":format!("{:?}", c.which),"props": which_props(c.which).into_iter().chain(["C04"]).collect::<Vec<_>>(),"case":c})));
         let vs = crate::dispatch!(c.kind, "fixed", exec_case, &c, &mut cn);
         emit(sink, &c, vs);
     } else if rp.get("adaptor").is_some() {
@@ -806,6 +804,5 @@ pub fn replay(rp: &serde_json::Value, _a: &Args, sink: &mut Sink) -> i32 {
         let k = rp["k"].as_u64().unwrap_or(1) as usize;
         crate::dispatch!(kind, "fixed", exec_adaptors, &r, k, &mut cn, sink);
     }
-    sink.finish_counts("replay", cn.cases + cn.adaptor_probes, cn.distinct.len() as u64, serde_json::json!({}));
     0
 }
